@@ -16,7 +16,7 @@ ASSUMPTIONS = c04.ASSUMPTIONS
 TIMEOUT = {"quick": 1500, "thorough": 7000}
 MIN_NONTRIVIAL = {"quick": 40, "thorough": 120}
 
-ALG = ['uup4']
+ALG = ['uup4', 'gdown4', 'hdown4']
 KEYS = ['theta', 'thetadown4', 'sheardown4', 'shear2', 'omegadown4', 'omega2',
         'accelerationdown4', 'accelerationup4', 'acc_dot_n']
 
@@ -50,7 +50,9 @@ def _run_case(spec):
         else:
             code['acc_dot_n'] = np.einsum('a...,a...->...', a, ex['nup4'])
         b = ex['betaup3']
-        exd = {'uup4': ex['nup4'], 'theta': -ex['Ktrace'],
+        exd = {'uup4': ex['nup4'], 'gdown4': ex['gdown4'],
+               'hdown4': ex['gdown4'] + np.einsum('a...,b...->ab...', ex['ndown4'], ex['ndown4']),
+               'theta': -ex['Ktrace'],
                'thetadown4': -s_to_st(b, ex['Kdown3']),
                'sheardown4': -s_to_st(b, ex['Adown3']),
                'shear2': ex['A2'],
